@@ -6,7 +6,11 @@ from sdc11073.location import SdcLocation
 FOREIGN = ['sdc.ctxt.loc:/a/b/c/d', 'sdc.ctxt.loc:', 'sdc.ctxt.loc:/', 'sdc.ctxt.loc:/x', 'sdc.ctxt.loc://[', 'http://[::1',
            'sdc.ctxt.loc:/sdc.ctxt.loc.detail/x?fac=%zz', 'sdc.ctxt.loc:/sdc.ctxt.loc.detail/x?fac', '', 'urn:uuid:1',
            'sdc.mds.pkp:1.2.3', 'SDC.CTXT.LOC:/sdc.ctxt.loc.detail/a?fac=a', 'sdc.ctxt.loc:/r/l?fac=a&fac=b&&=',
-           'sdc.ctxt.loc:/sdc.ctxt.loc.detail/%2F%2F?bed=%00', '\udcff', 'sdc.ctxt.loc:/a/b?\x00']
+           'sdc.ctxt.loc:/sdc.ctxt.loc.detail/%2F%2F?bed=%00', '\udcff', 'sdc.ctxt.loc:/a/b?\x00',
+           # well-formed location scopes of other vendors: unknown, duplicated, reserved and empty query keys
+           'sdc.ctxt.loc:/sdc.ctxt.loc.detail/x?fac=f&poc=p&dept=cardiology', 'sdc.ctxt.loc:/sdc.ctxt.loc.detail/x?root=y&fac=f',
+           'sdc.ctxt.loc:/sdc.ctxt.loc.detail/x?self=1', 'sdc.ctxt.loc:/sdc.ctxt.loc.detail/x?=1', 'sdc.ctxt.loc:/sdc.ctxt.loc.detail/x?&&==&fac&poc=&;;=',
+           'sdc.ctxt.loc:/sdc.ctxt.loc.detail/x?cls=1&fac=a', 'sdc.ctxt.loc:/sdc.ctxt.loc.detail/x?FAC=a&Bed=1']
 
 
 def filter_total(inputs):
